@@ -1,7 +1,8 @@
 (** Correspondence evaluator for C06 (answers pinned to a past instant never change).
     A case is a history of writes; right after write i a set of probes (entity lookups, relationship
-    queries with the bodies of the related entities) is asked "now", and after every later write the
-    same probes are asked again pinned to instant i.  URI codes are the observed internal ids. *)
+    queries with the bodies of the related entities) is asked "now" ([PAsk], each with its own id), and
+    after every later write the same probes are asked again pinned to the instant they were first
+    asked at ([PPin], referring to the probe id).  URI codes are the observed internal ids. *)
 From Coq Require Import List ZArith NArith Bool.
 From DH Require Import Lib.CheckLib Model.Store Model.Refs Model.Query Model.GraphSpec Model.PointInTime Check.C03Check.
 Import ListNotations.
@@ -12,13 +13,18 @@ Definition now_at : Z := 4611686018427387904.   (* the driver's "no At": 1 << 62
 Definition body := (list (Z * content) * bool)%type.      (* partials per dataset (dataset order), hasDeleted *)
 Definition rrow := (Z * Z * Z * body)%type.               (* (start, predicate, related), body of the related entity *)
 
+Inductive probe :=
+| BGet (id : uri) (req : list Z)
+| BRel (starts : list uri) (pred : Z) (inverse : bool) (req : list Z) (limits : list Z).
+
+Inductive pobs :=
+| OGet (found : bool) (b : body)
+| ORel (pages : option (list (list rrow))).          (* None = the query was refused (unknown predicate) *)
+
 Inductive pop :=
 | PWrite (w : wop)
-| PGet (id : uri) (at_ : option Z) (req : list Z) (o_found : bool) (o_body : body)
-       (expect : option (bool * body))                    (* pinned probes: the answer recorded right after that write *)
-| PRel (starts : list uri) (pred : Z) (inverse : bool) (req : list Z) (at_ : option Z) (limits : list Z)
-       (o_pages : option (list (list rrow)))
-       (expect : option (list (list rrow))).
+| PAsk (pid : nat) (pr : probe) (o : pobs)            (* asked now *)
+| PPin (pid : nat) (o : pobs).                        (* probe [pid] asked again, pinned to the instant it was first asked at *)
 
 Record pcase := { pc_ds : list Z; pc_ops : list pop }.
 
@@ -32,12 +38,69 @@ Definition pv_current : pvariant := {| pv_c03 := v_current; pv_body_now := true 
 Definition part_eqb (a b : Z * content) : bool := Z.eqb (fst a) (fst b) && identical (snd a) (snd b).
 Definition body_eqb (a b : body) : bool :=
   list_eqb part_eqb (fst a) (fst b) && (match fst a with [] => Bool.eqb (snd a) (snd b) | _ => true end).
-Definition rrow_eqb (a b : rrow) : bool := trip3_eqb (fst a) (fst b) && body_eqb (snd a) (snd b).
+Definition no_body : body := ([], false).
 
-(** multiset equality of rows *)
-Definition count_row (x : rrow) (l : list rrow) : nat := length (filter (rrow_eqb x) l).
+(** does the model (variant v) predict observation [o] of probe [pr] asked in state [rs], now ([at_] = None)
+    or pinned to instant t ([at_] = Some t)? *)
+Definition agree_probe (v : pvariant) (dss : list Z) (rs : rstore) (pr : probe) (at_ : option Z) (o : pobs) : bool :=
+  let q := v_q (pv_c03 v) in
+  let clk := s_clock (rs_st rs) in
+  match pr, o with
+  | BGet id req, OGet o_found o_body =>
+    let a := match at_ with Some t => t | None => clk end in
+    if zmem id (rs_known rs) then
+      o_found && body_eqb (lookup_at (rs_st rs) id a (resolve_scope q dss req)) o_body
+    else negb o_found
+  | BRel starts pred inverse req limits, ORel o_pages =>
+    let a := match at_ with Some t => t | None => now_at end in
+    (* the instant the repaired variant reads bodies at: the query's own instant *)
+    let ab := match at_ with Some t => Z.min t clk | None => clk end in
+    match query_pages q rs dss starts pred inverse req a limits fuel0, o_pages with
+    | Some mps, Some ops =>
+      (* the (start, predicate, related) triples page by page as in C03 ... *)
+      pages_match inverse mps (map (map fst) ops)
+      (* ... and every body is the related entity as of the instant the variant reads bodies at *)
+      && forallb (fun row : rrow =>
+                    body_eqb (lookup_at (rs_st rs) (snd (fst row)) (if pv_body_now v then clk else ab)
+                                        (resolve_scope q dss req))
+                             (snd row))
+                 (concat ops)
+    | None, None => true
+    | _, _ => false
+    end
+  | _, _ => false
+  end.
+
+(** probes asked so far: id -> (probe, instant, recorded observation) *)
+Definition ptable := list (nat * (probe * Z * pobs)).
+Fixpoint plookup (pid : nat) (t : ptable) : option (probe * Z * pobs) :=
+  match t with
+  | [] => None
+  | (i, x) :: t' => if Nat.eqb i pid then Some x else plookup pid t'
+  end.
+
+Fixpoint agree_prun (v : pvariant) (dss : list Z) (rs : rstore) (tb : ptable) (ops : list pop) : bool :=
+  match ops with
+  | [] => true
+  | PWrite w :: ops' => agree_prun v dss (rapply (v_eq (pv_c03 v)) (v_dup (pv_c03 v)) rs w) tb ops'
+  | PAsk pid pr o :: ops' =>
+    agree_probe v dss rs pr None o && agree_prun v dss rs ((pid, (pr, s_clock (rs_st rs), o)) :: tb) ops'
+  | PPin pid o :: ops' =>
+    match plookup pid tb with
+    | Some (pr, t, _) => agree_probe v dss rs pr (Some t) o
+    | None => false
+    end && agree_prun v dss rs tb ops'
+  end.
+Definition agree (v : pvariant) (c : pcase) : bool := agree_prun v (pc_ds c) rstore0 [] (pc_ops c).
+
+(** ** the executable spec of C06: two observations of the implementation agree - what a probe returns when
+    pinned to the instant it was first asked at is what it returned then.  No model is involved. *)
+Definition count3 (x : Z * Z * Z) (l : list (Z * Z * Z)) : nat := length (filter (trip3_eqb x) l).
 Definition rows_eqv (a b : list rrow) : bool :=
-  forallb (fun x => Nat.eqb (count_row x a) (count_row x b)) (a ++ b).
+  (* the same triples, as multisets ... *)
+  forallb (fun x => Nat.eqb (count3 x (map fst a)) (count3 x (map fst b))) (map fst a ++ map fst b)
+  (* ... carrying the same bodies *)
+  && forallb (fun ra => forallb (fun rb => negb (trip3_eqb (fst ra) (fst rb)) || body_eqb (snd ra) (snd rb)) b) a.
 Fixpoint pages_eqv (a b : list (list rrow)) : bool :=
   match a, b with
   | [], [] => true
@@ -45,71 +108,64 @@ Fixpoint pages_eqv (a b : list (list rrow)) : bool :=
   | _, _ => false
   end.
 
-Definition agree_pop (v : pvariant) (dss : list Z) (rs : rstore) (o : pop) : bool :=
-  let q := v_q (pv_c03 v) in
-  let clk := s_clock (rs_st rs) in
-  match o with
-  | PWrite _ => true
-  | PGet id at_ req o_found o_body _ =>
-    let a := match at_ with Some t => t | None => clk end in
-    if zmem id (rs_known rs) then
-      o_found && body_eqb (lookup_at (rs_st rs) id a (resolve_scope q dss req)) o_body
-    else negb o_found
-  | PRel starts pred inverse req at_ limits o_pages _ =>
-    let a := match at_ with Some t => t | None => now_at end in
-    match query_pages q rs dss starts pred inverse req a limits fuel0, o_pages with
-    | Some mps, Some ops =>
-      (* the (start, predicate, related) triples page by page as in C03 ... *)
-      pages_match inverse mps (map (map fst) ops)
-      (* ... and every body is the related entity as of the instant the variant reads bodies at *)
-      && forallb (fun row : rrow =>
-                    body_eqb (lookup_at (rs_st rs) (snd (fst row)) (if pv_body_now v then clk else Z.min a clk)
-                                        (resolve_scope q dss req))
-                             (snd row))
-                 (concat ops)
-    | None, None => true
-    | _, _ => false
-    end
+Definition obs_eqv (recorded pinned : pobs) : bool :=
+  match recorded, pinned with
+  | OGet f0 b0, OGet f b =>
+    (* "no such URI yet" and "no version yet" are the same answer: nothing *)
+    body_eqb (if f0 then b0 else no_body) (if f then b else no_body)
+  | ORel None, ORel _ => true              (* refused when first asked: nothing to compare with *)
+  | ORel (Some p0), ORel (Some p) => pages_eqv p0 p
+  | _, _ => false
   end.
 
-Fixpoint agree_prun (v : pvariant) (dss : list Z) (rs : rstore) (ops : list pop) : bool :=
+Fixpoint spec_prun (tb : list (nat * pobs)) (ops : list pop) : bool :=
   match ops with
   | [] => true
-  | PWrite w :: ops' => agree_prun v dss (rapply (v_eq (pv_c03 v)) (v_dup (pv_c03 v)) rs w) ops'
-  | o :: ops' => agree_pop v dss rs o && agree_prun v dss rs ops'
+  | PWrite _ :: ops' => spec_prun tb ops'
+  | PAsk pid _ o :: ops' => spec_prun ((pid, o) :: tb) ops'
+  | PPin pid o :: ops' =>
+    match find (fun e => Nat.eqb (fst e) pid) tb with
+    | Some (_, o0) => obs_eqv o0 o
+    | None => false
+    end && spec_prun tb ops'
   end.
-Definition agree (v : pvariant) (c : pcase) : bool := agree_prun v (pc_ds c) rstore0 (pc_ops c).
-
-(** the executable spec on the implementation's own observations: a pinned probe returns exactly what
-    the same probe returned when it was asked right after the write it is pinned to *)
-Definition spec_pop_ok (o : pop) : bool :=
-  match o with
-  | PGet _ _ _ o_found o_body (Some (e_found, e_body)) =>
-    (* "no such URI yet" and "no version yet" are the same answer: nothing *)
-    body_eqb (if o_found then o_body else ([], false)) (if e_found then e_body else ([], false))
-  | PRel _ _ _ _ _ _ (Some ops) (Some eps) => pages_eqv ops eps
-  | PRel _ _ _ _ _ _ None (Some _) => false
-  | _ => true
-  end.
-Definition spec_ok (c : pcase) : bool := forallb spec_pop_ok (pc_ops c).
+Definition spec_ok (c : pcase) : bool := spec_prun [] (pc_ops c).
 
 Definition evaluate (cs : list pcase) : list (list N) :=
   map (fun v => indices_where (fun c => negb (agree v c)) cs) pvariants
   ++ [ indices_where (fun c => negb (spec_ok c)) cs ].
 
 (** a spec failure that the pinned model does not predict *)
-Fixpoint unexplained_run (dss : list Z) (rs : rstore) (ops : list pop) : bool :=
+Fixpoint unexplained_run (dss : list Z) (rs : rstore) (tb : ptable) (ops : list pop) : bool :=
   match ops with
   | [] => false
-  | PWrite w :: ops' => unexplained_run dss (rapply (v_eq v_current) (v_dup v_current) rs w) ops'
-  | o :: ops' => (negb (spec_pop_ok o) && negb (agree_pop pv_current dss rs o)) || unexplained_run dss rs ops'
+  | PWrite w :: ops' => unexplained_run dss (rapply (v_eq v_current) (v_dup v_current) rs w) tb ops'
+  | PAsk pid pr o :: ops' => unexplained_run dss rs ((pid, (pr, s_clock (rs_st rs), o)) :: tb) ops'
+  | PPin pid o :: ops' =>
+    match plookup pid tb with
+    | Some (pr, t, o0) => negb (obs_eqv o0 o) && negb (agree_probe pv_current dss rs pr (Some t) o)
+    | None => true
+    end || unexplained_run dss rs tb ops'
   end.
 Definition unexplained_all (cs : list pcase) : list (list N) :=
-  [indices_where (fun c => unexplained_run (pc_ds c) rstore0 (pc_ops c)) cs].
+  [indices_where (fun c => unexplained_run (pc_ds c) rstore0 [] (pc_ops c)) cs].
 
-Fixpoint first_bad (v : pvariant) (dss : list Z) (rs : rstore) (ops : list pop) (i : N) : option N :=
+Fixpoint first_bad (v : pvariant) (dss : list Z) (rs : rstore) (tb : ptable) (ops : list pop) (i : N) : option N :=
   match ops with
   | [] => None
-  | PWrite w :: ops' => first_bad v dss (rapply (v_eq (pv_c03 v)) (v_dup (pv_c03 v)) rs w) ops' (N.succ i)
-  | o :: ops' => if agree_pop v dss rs o then first_bad v dss rs ops' (N.succ i) else Some i
+  | PWrite w :: ops' => first_bad v dss (rapply (v_eq (pv_c03 v)) (v_dup (pv_c03 v)) rs w) tb ops' (N.succ i)
+  | PAsk pid pr o :: ops' =>
+    if agree_probe v dss rs pr None o then first_bad v dss rs ((pid, (pr, s_clock (rs_st rs), o)) :: tb) ops' (N.succ i) else Some i
+  | PPin pid o :: ops' =>
+    if match plookup pid tb with Some (pr, t, _) => agree_probe v dss rs pr (Some t) o | None => false end
+    then first_bad v dss rs tb ops' (N.succ i) else Some i
+  end.
+Fixpoint spec_bad (tb : list (nat * pobs)) (ops : list pop) (i : N) : list N :=
+  match ops with
+  | [] => []
+  | PWrite _ :: ops' => spec_bad tb ops' (N.succ i)
+  | PAsk pid _ o :: ops' => spec_bad ((pid, o) :: tb) ops' (N.succ i)
+  | PPin pid o :: ops' =>
+    (if match find (fun e => Nat.eqb (fst e) pid) tb with Some (_, o0) => obs_eqv o0 o | None => false end then [] else [i])
+    ++ spec_bad tb ops' (N.succ i)
   end.
